@@ -15,16 +15,21 @@ R = z3.RealSort()
 STR = z3.StringSort()
 IntArr = z3.ArraySort(I, I)
 
-_counter = itertools.count()
+_counter = [0]
 
 
 def fresh_name(base):
-	return f'{base}!{next(_counter)}'
+	_counter[0] += 1
+	return f'{base}!{_counter[0]}'
+
+
+def fresh_mark():
+	"""names created after this call carry a larger number"""
+	return _counter[0]
 
 
 def reset_names():
-	global _counter
-	_counter = itertools.count()
+	_counter[0] = 0
 
 
 # ---------------------------------------------------------------------------------------------
@@ -368,20 +373,26 @@ class TOpt(TypeDesc):
 		if hasattr(self, 'T'):
 			return
 		self.T = T
-		dt = z3.Datatype(f'Opt_{T!r}')
-		dt.declare('none')
-		dt.declare('some', ('val', T.sort))
+		nm = repr(T).replace('[', '_').replace(']', '')
+		dt = z3.Datatype(f'Opt_{nm}')
+		dt.declare(f'none_{nm}')
+		dt.declare(f'some_{nm}', (f'val_{nm}', T.sort))
 		self.sort = dt.create()
+		self.none_c = getattr(self.sort, f'none_{nm}')
+		self.some_c = getattr(self.sort, f'some_{nm}')
+		self.val_a = getattr(self.sort, f'val_{nm}')
+		self.is_none_r = getattr(self.sort, f'is_none_{nm}')
+		self.is_some_r = getattr(self.sort, f'is_some_{nm}')
 
 	def wrap(self, term):
 		return SOpt(self, term)
 
 	def unwrap(self, v):
 		if v is None:
-			return self.sort.none
+			return self.none_c
 		if isinstance(v, SOpt):
 			return v.term
-		return self.sort.some(self.T.unwrap(v))
+		return self.some_c(self.T.unwrap(v))
 
 	def __repr__(self):
 		return f'Opt[{self.T!r}]'
@@ -392,10 +403,10 @@ class SOpt(SV):
 		self.T, self.term = T, term
 
 	def is_none(self):
-		return self.T.sort.is_none(self.term)
+		return self.T.is_none_r(self.term)
 
 	def value(self):
-		return self.T.T.wrap(self.T.sort.val(self.term))
+		return self.T.T.wrap(self.T.val_a(self.term))
 
 	def __repr__(self):
 		return f'SOpt({self.term})'
@@ -415,16 +426,18 @@ class TSeq(TypeDesc):
 		key = repr(T)
 		if key not in TSeq._sorts:
 			arrsort = z3.ArraySort(I, T.sort)
-			dt = z3.Datatype(f'Seq_{T!r}')
-			dt.declare('mk', ('arr', arrsort), ('len', I))
-			TSeq._sorts[key] = (arrsort, dt.create())
-		self.arrsort, self.sort = TSeq._sorts[key]
+			nm = key.replace('[', '_').replace(']', '')
+			dt = z3.Datatype(f'Seq_{nm}')
+			dt.declare(f'mkseq_{nm}', (f'arr_{nm}', arrsort), (f'len_{nm}', I))
+			srt = dt.create()
+			TSeq._sorts[key] = (arrsort, srt, getattr(srt, f'mkseq_{nm}'), getattr(srt, f'arr_{nm}'), getattr(srt, f'len_{nm}'))
+		self.arrsort, self.sort, self._mk, self._arr, self._len = TSeq._sorts[key]
 
 	def wrap(self, term):
-		return SSeq(self.T, self.sort.arr(term), self.sort.len(term))
+		return SSeq(self.T, self._arr(term), self._len(term))
 
 	def unwrap(self, v):
-		return self.sort.mk(v.arr, v.length)
+		return self._mk(v.arr, v.length)
 
 	def fresh(self, name):
 		return SSeq(self.T, z3.Const(fresh_name(name), self.arrsort), z3.Int(fresh_name(name + '_len')))
@@ -461,18 +474,18 @@ class SSeq(SV):
 class TArr(TypeDesc):
 	"""Integer arrays as datatype (arr, len) -- for sequences of signatures etc."""
 	dt = z3.Datatype('IntArrV')
-	dt.declare('mk', ('arr', IntArr), ('len', I))
+	dt.declare('mkintarr', ('iarr', IntArr), ('ilen', I))
 	sort = dt.create()
 
 	def __init__(self, elem=None, kind='ndarray'):
 		self.elem, self.kind = elem, kind
 
 	def wrap(self, term):
-		return SArr(self.sort.arr(term), self.sort.len(term), 0, self.elem, self.kind)
+		return SArr(self.sort.iarr(term), self.sort.ilen(term), 0, self.elem, self.kind)
 
 	def unwrap(self, v):
 		assert z3.is_int_value(v.off) and v.off.as_long() == 0, 'offset arrays cannot be stored'
-		return self.sort.mk(v.arr, v.length)
+		return self.sort.mkintarr(v.arr, v.length)
 
 	def fresh(self, name):
 		return SArr.fresh(name, self.elem, self.kind)
@@ -584,7 +597,7 @@ class TRec(TypeDesc):
 		key = (name, tuple((k, repr(v)) for k, v in self.fields.items()))
 		if key not in TRec._dts:
 			dt = z3.Datatype(f'Rec_{name}')
-			dt.declare('mk', *[(f, T.sort) for f, T in self.fields.items()])
+			dt.declare(f'mk_{name}', *[(f'{name}_{f}', T.sort) for f, T in self.fields.items()])
 			TRec._dts[key] = dt.create()
 		self.sort = TRec._dts[key]
 
@@ -597,7 +610,7 @@ class TRec(TypeDesc):
 		raise TypeError(f'not a {self.name}: {v!r}')
 
 	def make_term(self, fieldvals):
-		return self.sort.mk(*[T.unwrap(fieldvals[f]) for f, T in self.fields.items()])
+		return getattr(self.sort, f'mk_{self.name}')(*[T.unwrap(fieldvals[f]) for f, T in self.fields.items()])
 
 	def __repr__(self):
 		return f'Rec[{self.name}]'
@@ -609,7 +622,7 @@ class SRec(SV):
 
 	def getattr(self, f):
 		if f in self.T.fields:
-			return self.T.fields[f].wrap(getattr(self.T.sort, f)(self.term))
+			return self.T.fields[f].wrap(getattr(self.T.sort, f'{self.T.name}_{f}')(self.term))
 		if f in self.T.consts:
 			return self.T.consts[f]
 		raise KeyError(f)
@@ -622,3 +635,17 @@ class SRec(SV):
 
 	def __repr__(self):
 		return f'SRec({self.T.name}:{self.term})'
+
+
+
+class SMaybe(SV):
+	"""Optional heap object returned by a contract: None when `none` holds, otherwise the object ref."""
+
+	def __init__(self, none, ref):
+		self.none, self.ref = none, ref
+
+	def fresh_like(self, name):
+		raise TypeError('SMaybe cannot be havocked')
+
+	def __repr__(self):
+		return f'SMaybe({self.none}, {self.ref})'
